@@ -217,7 +217,7 @@ def run(ctx):
         nsim, depth, maxpub = 26, 14, 9
     else:
         bfs = [("avc_aac", 6, "AvcCore", "Dt2"), ("hevc_aac", 6, "HevcCore", "Dt2"), ("avc_opus", 5, "AvcAll", "Dt2"),
-               ("hevc_opus", 5, "HevcAll", "Dt2"), ("none_aac", 8, "NoKinds", "Dt5"), ("avc_none", 5, "AvcAll", "Dt3")]
+               ("hevc_opus", 5, "HevcAll", "Dt2"), ("none_aac", 8, "NoKinds", "Dt5"), ("avc_none", 5, "AvcAll", "Dt2")]
         nsim, depth, maxpub = 1900, 16, 10
 
     def do_bfs(x):
@@ -285,11 +285,9 @@ def run(ctx):
     for r in rej:
         ev = r["event"]
         sc = scen[r["sc"]] if r["sc"] is not None and r["sc"] < len(scen) else None
-        combo = sc["combo"] if sc else "?"
-        # locate the @WHY@ text: (shard, line-in-shard) is not known here, match on any shard with the same content line
         tr = r["trace"]
         parts = None
-        # recompute (shard, line) from the global position of the scenario
+        # (shard, line in shard) of the rejected event, to find the @WHY@ text printed next to its @REJ@
         if sc is not None:
             g0 = starts[r["sc"]]
             nsh = min(E.NCPU, 1 + len(rows) // 1500)
